@@ -48,8 +48,12 @@ def configs_small():
                                 continue
                             if send_from == "close" and (senders != 1 or disturb):
                                 continue  # send_from(..., close=True): the (single) sender closes the channel itself
-                            out.append({"senders": senders, "items": items, "receivers": receivers, "mode": mode, "buf": buf,
-                                        "disturb": disturb, "send_from": send_from})
+                            for free in (False, True):
+                                # free: a task is gated only before its FIRST operation and then runs its loop the way real
+                                # code does (consecutive operations that do not suspend happen without any other task running
+                                # in between) -- a gate before every operation would make such runs unreachable
+                                out.append({"senders": senders, "items": items, "receivers": receivers, "mode": mode, "buf": buf,
+                                            "disturb": disturb, "send_from": send_from, "free": free})
     return out
 
 
@@ -128,7 +132,8 @@ def run_schedule(cfg, chooser: Chooser):
                         d.log("ret", who, "send_from", "ChannelClosed")
                 else:
                     for k in range(cfg["items"]):
-                        await d.gate(who)
+                        if k == 0 or not cfg.get("free"):
+                            await d.gate(who)  # "free": only the start of a task is scheduled, then it runs like real code
                         d.log("call", who, "send", (i, k))
                         try:
                             await ch.send(Item((i, k)))
@@ -147,9 +152,12 @@ def run_schedule(cfg, chooser: Chooser):
             who = f"r{j}"
             try:
                 async def body():
+                    first = True
                     if mode == "receive":
                         while True:
-                            await d.gate(who)
+                            if first or not cfg.get("free"):
+                                await d.gate(who)
+                            first = False
                             d.log("call", who, "receive")
                             try:
                                 x = await ch.receive()
@@ -162,7 +170,9 @@ def run_schedule(cfg, chooser: Chooser):
                     else:
                         it = ch.__aiter__()
                         while True:
-                            await d.gate(who)
+                            if first or not cfg.get("free"):
+                                await d.gate(who)
+                            first = False
                             d.log("call", who, "anext")
                             try:
                                 x = await it.__anext__()
@@ -394,7 +404,7 @@ def history_hash(run) -> str:
 
 def cfg_name(cfg) -> str:
     return (f"s{cfg['senders']}x{cfg['items']}{('fc' if cfg['send_from'] == 'close' else 'f') if cfg['send_from'] else ''}-r{cfg['receivers']}{cfg['mode'][0]}-b{cfg['buf']}"
-            f"-{cfg['disturb'] or 'nodisturb'}")
+            f"-{cfg['disturb'] or 'nodisturb'}" + ("-free" if cfg.get("free") else ""))
 
 
 def judge(cfg, ch: Chooser, run, res: Result, hashes: set):
